@@ -397,11 +397,11 @@ OSSL_STUBS = LIBC + ["stubs/alloc.c", "stubs/openssl.c"]
 def ossl_units(prefix):
     return [
         U(prefix + ".openssl_sign_sha_hmac", "openssl_sign_sha_hmac (libjwt/openssl/sign-verify.c)", OSSL_SV, "contracts/openssl_sv_c.h",
-          "jwt_t *jwt = malloc(sizeof(*jwt)); jwk_item_t *key = malloc(sizeof(*key)); __CPROVER_assume(jwt != NULL && key != NULL); jwt->key = key; char *o; unsigned int l; size_t n; __CPROVER_assume(n < 0x10000000); char *s = VS(n); unsigned sl; __CPROVER_assume(sl <= n); openssl_sign_sha_hmac(jwt, &o, &l, s, sl);",
+          "jwt_t *jwt = malloc(sizeof(*jwt)); jwk_item_t *key = malloc(sizeof(*key)); __CPROVER_assume(jwt != NULL && key != NULL); jwt->key = key; char *o = NULL; unsigned int l; size_t n; __CPROVER_assume(n < 0x10000000); char *s = VS(n); unsigned sl; __CPROVER_assume(sl <= n); openssl_sign_sha_hmac(jwt, &o, &l, s, sl);",
           "openssl_sign_sha_hmac/contract_ops_sign_sha_hmac", stubs=OSSL_STUBS, defines=["VERIF_TU_OSSL_SV"], pre=[VS],
           expect=["contract_ops_sign_sha_hmac\\.postcondition\\.2", "HMAC\\.assertion"]),
         U(prefix + ".openssl_verify_sha_pem", "openssl_verify_sha_pem (libjwt/openssl/sign-verify.c)", OSSL_SV, "contracts/openssl_sv_c.h",
-          "jwt_t *jwt = malloc(sizeof(*jwt)); jwk_item_t *key = malloc(sizeof(*key)); __CPROVER_assume(jwt != NULL && key != NULL); jwt->key = key; char *o; unsigned int l; size_t n; __CPROVER_assume(n < 0x10000000); char *s = VS(n); unsigned hl; __CPROVER_assume(hl <= n); int sl; __CPROVER_assume(sl >= 1 && sl <= 0x100000); unsigned char *sig = malloc(sl); __CPROVER_assume(sig != NULL); g_der_buf = NULL; g_der_sig = NULL; openssl_verify_sha_pem(jwt, s, hl, sig, sl);",
+          "jwt_t *jwt = malloc(sizeof(*jwt)); jwk_item_t *key = malloc(sizeof(*key)); __CPROVER_assume(jwt != NULL && key != NULL); jwt->key = key; char *o = NULL; unsigned int l; size_t n; __CPROVER_assume(n < 0x10000000); char *s = VS(n); unsigned hl; __CPROVER_assume(hl <= n); int sl; __CPROVER_assume(sl >= 1 && sl <= 0x100000); unsigned char *sig = malloc(sl); __CPROVER_assume(sig != NULL); g_der_buf = NULL; g_der_sig = NULL; openssl_verify_sha_pem(jwt, s, hl, sig, sl);",
           "openssl_verify_sha_pem/contract_ops_verify_sha_pem", stubs=OSSL_STUBS, defines=["VERIF_TU_OSSL_SV", "VERIF_STRCPY_ERRBUF"], pre=[VS],
           expect=["contract_ops_verify_sha_pem\\.postcondition\\.1", "EVP_DigestVerify\\.assertion"]),
         U(prefix + ".jwt_ec_d2i", "jwt_ec_d2i (libjwt/openssl/sign-verify.c)", OSSL_SV, "contracts/openssl_sv_c.h",
@@ -409,7 +409,7 @@ def ossl_units(prefix):
           "jwt_ec_d2i/contract_C05_jwt_ec_d2i", stubs=OSSL_STUBS, defines=["VERIF_TU_OSSL_SV"],
           expect=["contract_C05_jwt_ec_d2i\\.postcondition\\.2", "BN_bn2bin\\.assertion"]),
         U(prefix + ".openssl_sign_sha_pem", "openssl_sign_sha_pem (libjwt/openssl/sign-verify.c)", OSSL_SV, "contracts/openssl_sv_c.h",
-          "jwt_t *jwt = malloc(sizeof(*jwt)); jwk_item_t *key = malloc(sizeof(*key)); __CPROVER_assume(jwt != NULL && key != NULL); jwt->key = key; char *o; unsigned int l; size_t n; __CPROVER_assume(n < 0x10000000); char *s = VS(n); unsigned sl; __CPROVER_assume(sl <= n); openssl_sign_sha_pem(jwt, &o, &l, s, sl);",
+          "jwt_t *jwt = malloc(sizeof(*jwt)); jwk_item_t *key = malloc(sizeof(*key)); __CPROVER_assume(jwt != NULL && key != NULL); jwt->key = key; char *o = NULL; unsigned int l; size_t n; __CPROVER_assume(n < 0x10000000); char *s = VS(n); unsigned sl; __CPROVER_assume(sl <= n); openssl_sign_sha_pem(jwt, &o, &l, s, sl);",
           "openssl_sign_sha_pem/contract_ops_sign_sha_pem", replace=["jwt_ec_d2i/contract_C05_jwt_ec_d2i"],
           stubs=OSSL_STUBS, defines=["VERIF_TU_OSSL_SV"], pre=[VS],
           expect=["contract_ops_sign_sha_pem\\.postcondition\\.2", "EVP_DigestSign\\.assertion"]),
@@ -419,6 +419,29 @@ P["C05"] = {"property": "C05", "level": "proof", "units": ossl_units("C05")[2:]}
 _u = dict(ossl_units("C05")[1]); _u["name"] = "C05.openssl_verify_sha_pem.complete"; _u["enforce"] = "openssl_verify_sha_pem/contract_C05_openssl_verify_sha_pem"
 _u["expect"] = ["contract_C05_openssl_verify_sha_pem\\.postcondition\\.8"]; _u["defines"] = _u["defines"] + ["VERIF_ALLOC_RECORD_FAIL"]
 P["C05"]["units"].append(_u)
+
+# =================== the GnuTLS provider entries (C12 parity, C01, C06) =====
+GNUTLS_SV = "libjwt/gnutls/sign-verify.c"
+GNUTLS_STUBS = LIBC + ["stubs/alloc.c", "stubs/gnutls.c"]
+MKJ = "jwt_t *jwt = malloc(sizeof(*jwt)); jwk_item_t *key = malloc(sizeof(*key)); __CPROVER_assume(jwt != NULL && key != NULL); jwt->key = key; char *o = NULL; unsigned int l; gnutls_free = verif_gnutls_free; g_rs_buf = NULL; "
+PEM = "size_t pn; __CPROVER_assume(pn < 0x100000); key->pem = nondet_bool() ? NULL : VS(pn); "
+def gnutls_units(prefix):
+    return [
+        U(prefix + ".gnutls_sign_sha_hmac", "gnutls_sign_sha_hmac (libjwt/gnutls/sign-verify.c)", GNUTLS_SV, "contracts/gnutls_sv_c.h",
+          MKJ + "size_t n; __CPROVER_assume(n < 0x10000000); char *s = VS(n); unsigned sl; __CPROVER_assume(sl <= n); gnutls_sign_sha_hmac(jwt, &o, &l, s, sl);",
+          "gnutls_sign_sha_hmac/contract_ops_sign_sha_hmac", stubs=GNUTLS_STUBS, defines=["VERIF_TU_GNUTLS_SV"], pre=[VS],
+          expect=["contract_ops_sign_sha_hmac\\.postcondition\\.2", "gnutls_hmac_fast\\.assertion"]),
+        U(prefix + ".gnutls_verify_sha_pem", "gnutls_verify_sha_pem (libjwt/gnutls/sign-verify.c)", GNUTLS_SV, "contracts/gnutls_sv_c.h",
+          MKJ + PEM + "size_t n; __CPROVER_assume(n < 0x10000000); char *s = VS(n); unsigned hl; __CPROVER_assume(hl <= n); int sl; __CPROVER_assume(sl >= 1 && sl <= 0x100000); unsigned char *sig = malloc(sl); __CPROVER_assume(sig != NULL); gnutls_verify_sha_pem(jwt, s, hl, sig, sl);",
+          "gnutls_verify_sha_pem/contract_ops_verify_sha_pem", stubs=GNUTLS_STUBS, defines=["VERIF_TU_GNUTLS_SV", "VERIF_STRCPY_ERRBUF"], pre=[VS],
+          expect=["contract_ops_verify_sha_pem\\.postcondition\\.1", "gnutls_pubkey_verify_data2\\.assertion"]),
+        U(prefix + ".gnutls_sign_sha_pem", "gnutls_sign_sha_pem (libjwt/gnutls/sign-verify.c)", GNUTLS_SV, "contracts/gnutls_sv_c.h",
+          MKJ + PEM + "size_t n; __CPROVER_assume(n < 0x10000000); char *s = VS(n); unsigned sl; __CPROVER_assume(sl <= n); gnutls_sign_sha_pem(jwt, &o, &l, s, sl);",
+          "gnutls_sign_sha_pem/contract_ops_sign_sha_pem", stubs=GNUTLS_STUBS, defines=["VERIF_TU_GNUTLS_SV"], pre=[VS],
+          expect=["contract_ops_sign_sha_pem\\.postcondition\\.2", "gnutls_privkey_sign_data\\.assertion"]),
+    ]
+P["C12"]["units"] += gnutls_units("C12") + [dict(u, name=u["name"].replace("C01.", "C12.")) for u in ossl_units("C01")[:2]] + \
+    [dict(ossl_units("C05")[3], name="C12.openssl_sign_sha_pem", replace=["jwt_ec_d2i/contract_C05_jwt_ec_d2i"])]
 
 # ============================ parsing units =================================
 VERIFY_JSON_STUBS = LIBC + ["stubs/time.c", "stubs/jansson.c", "stubs/alloc.c"]
